@@ -142,6 +142,12 @@ pub(crate) fn format_extern(ext: ast::Extern, explicit_abi: bool) -> Cow<'static
         ast::Extern::Explicit(abi, _) if abi.symbol_unescaped == sym::C && !explicit_abi => {
             Cow::from("extern ")
         }
+        // The ABI goes back between plain double quotes: for a plain string literal as it was
+        // written (`"a\nb"` keeps its escape; the unescaped text would put a line break, or a
+        // quote, into the output).
+        ast::Extern::Explicit(abi, _) if abi.style == ast::StrStyle::Cooked => {
+            Cow::from(format!(r#"extern "{}" "#, abi.symbol))
+        }
         ast::Extern::Explicit(abi, _) => {
             Cow::from(format!(r#"extern "{}" "#, abi.symbol_unescaped))
         }
